@@ -174,7 +174,13 @@ class _FunctionCall(object):
                     retval.addCallback(_cb_async, ctx, cnt, self)
 
                 else:
-                    retval = _cb_sync(ctx, cnt, self)
+                    try:
+                        retval = _cb_sync(ctx, cnt, self)
+                    except BaseException:
+                        # the call ends here: the context is closed just like
+                        # it is when the call succeeds
+                        p_ctx.close()
+                        raise
 
         if not self._async:
             p_ctx.close()
